@@ -79,6 +79,20 @@ DupCases ==
   \cup {Req("GET", "/", "1.1", <<P("User-Agent", "first/1.0"), P("Host", "h"), P("user-agent", "second/2.0"), Lg(<<Item(3, 1, FALSE)>>), Lg(<<Item(1, 1, FALSE)>>)>>)}
   \cup {Resp("1.1", 200, "OK", <<P("Server", "first"), P("Content-Type", "a"), P("server", "second"), P("Set-Cookie", "a=1"), P("Set-Cookie", "b=2")>>)}
 
+\* ---- common: the headers of the two "common" lists (the ones whose ABSENCE is part of the signature), any subset of them present,
+\* some of the present ones repeated (in another spelling) so that the number of lines naming a common header reaches, or passes,
+\* the length of the list while headers are still missing: absent is judged by name, never by count
+ReqC == <<P("Host", "example.com"), P("User-Agent", UA), P("Connection", "keep-alive"), P("Accept", "*/*"), P("Accept-Encoding", "gzip"), Lg(<<Item(1, 1, FALSE)>>),
+          P("Accept-Charset", "utf-8"), P("Keep-Alive", "300")>>
+RespC == <<P("Content-Type", "text/html"), P("Connection", "close"), P("Keep-Alive", "timeout=5"), P("Accept-Ranges", "bytes"), P("Date", "Mon, 01 Jan 2024 00:00:00 GMT")>>
+Respell(h) == IF h.t = "plain" THEN [h EXCEPT !.name = Lower(h.name)] ELSE h
+Pick(pool, S) == LET idx == SetToSeq(S) IN [i \in 1..Len(idx) |-> pool[SortSeq(idx, <)[i]]]
+Again(pool, S, d) == LET ps == Pick(pool, S) IN IF Len(ps) = 0 THEN <<>> ELSE [i \in 1..d |-> Respell(ps[((i - 1) % Len(ps)) + 1])]
+CommonCases ==
+  {Req("GET", "/", "1.1", Pick(ReqC, S) \o <<P("X-Other", "1")>> \o Again(ReqC, S \ {6}, d)) :
+      S \in {T \in SUBSET (1..8) : Cardinality(T) \in {1, 4, 6, 7, 8}}, d \in {0, 1, 2, 4}}
+  \cup {Resp("1.1", 200, "OK", <<P("Server", "s")>> \o Pick(RespC, S) \o Again(RespC, S, d)) : S \in SUBSET (1..5), d \in {0, 1, 2, 4}}
+
 \* ---- long: request targets, reason phrases and header values of up to 8000 characters (the parser's documented limits are 8192
 \* per request line and per header line; nothing shorter may be cut, sniffed partially or dropped)
 RECURSIVE Rpt(_, _)
@@ -89,7 +103,7 @@ LongCases ==
   \cup {Resp("1.1", 200, Rpt("r", n), <<P("Server", "s"), P("X-Long", Rpt("w", n))>>) : n \in {1010, 1024, 1100, 4000}}
   \cup {Resp("1.0", 404, "Not Found", <<P("Server", Rpt("S", n)), P("Content-Type", "t")>>) : n \in {1024, 8000}}
 
-Cases == CASE Fam = "long" -> LongCases [] Fam = "dup" -> DupCases [] Fam = "start" -> StartCases [] Fam = "hdrs" -> HdrCases [] Fam = "ows" -> OwsCases [] Fam = "cookie" -> CookieCases
+Cases == CASE Fam = "common" -> CommonCases [] Fam = "long" -> LongCases [] Fam = "dup" -> DupCases [] Fam = "start" -> StartCases [] Fam = "hdrs" -> HdrCases [] Fam = "ows" -> OwsCases [] Fam = "cookie" -> CookieCases
            [] Fam = "lang" -> LangCases [] Fam = "many" -> ManyCases
 CaseSeq == SetToSeq(Cases)
 
